@@ -1717,6 +1717,13 @@ fn write_leaf(
                         write_primitive(typed, array.values(), levels)
                     }
                 },
+                ArrowDataType::Decimal32(_, _) => {
+                    // a precision of 1 is mapped to INT64 by the schema conversion
+                    let array = column
+                        .as_primitive::<Decimal32Type>()
+                        .unary::<_, Int64Type>(|v| v as i64);
+                    write_primitive(typed, array.values(), levels)
+                }
                 ArrowDataType::Decimal64(_, _) => {
                     let array = column
                         .as_primitive::<Decimal64Type>()
